@@ -14,9 +14,14 @@ Proofs go through C02 (`complete_checkType`): a conforming value passes every ch
 * `transparent`: conforming keyword call ⇒ the body runs with all the caller's objects, its result object / exception
   object reaches the caller unchanged.
 * `checking_never_iterates_an_iterator` (no consumption): the checker never looks at the pending items of a one-shot iterator.
-* `text_independent_partial`: the behaviour depends on the source text only through the five source flags; under
-  `truthful` flags two functions with the same signature and decoration behave identically.  The full statement
-  `TextIndependent_full` is refuted by the regions `bodyMentionsStaticmethod` / `bodyMentionsStarArgs`.
+* body text: `text_independent_up_to_args_needle` - two sources with the same decorator lines that agree on whether `*args`
+  occurs somewhere behave identically on every call; `body_text_irrelevant_for_keyword_calls` - for keyword calls even that
+  needle is irrelevant.  The full statement `TextIndependent_full` is refuted (`TextIndependent_full_is_false`) by exactly that
+  needle: `wants_args` is still read from the whole source (finding `bodyTextFlipsHeuristics`).
+* `transparent_forwards`: which of the caller's objects a conforming call hands to the body.
+* about the TRANSLATED code (Props/C04IR.lean, Props/CallLayerIR.lean): `ir_transparent`, `ir_body_invoked_exactly_once` (a `Nat` counter of the
+  executed invocation statements), `ir_body_exception_unchanged` (no `try` around the invocation), `ir_context_prefers_function_globals`, and the
+  region of values that cannot be formatted (`ir_unprintable_conforming_result_escapes`, finding `unprintableValueEscapes`).
 -/
 namespace PedVerif.Call
 open PedVerif.Checker PedVerif.Gen.CallTables PedVerif.Gen.TypeTables
@@ -24,7 +29,7 @@ open PedVerif.Checker PedVerif.Gen.CallTables PedVerif.Gen.TypeTables
 /-- **C04.** A conforming keyword call of a @pedantic function behaves like the undecorated function. -/
 theorem transparent (env : Env) (orc : Nat → Val → Raw) (f : Fn) (args : List Val) (kw : List (NameId × Val)) (body : BodyOut)
     (ctx : CompleteCtx env f args kw) (hmode : f.mode = .pedantic) (hfl : f.flavour ≠ .generator)
-    (hinit : (f.firstIsSelf && args.isEmpty) = false)
+    (hinit : f.initFails args = false)
     (hkw : (f.shouldHaveKwargs && !(f.argsWithoutSelf args).isEmpty) = false)   -- no declared parameter is passed positionally
     (hc : f.clazzFails args = false)
     (hbinds : f.binds (fwdPosOf f args).length (kw.map (·.1)) = true)           -- Python accepts the call
@@ -34,7 +39,7 @@ theorem transparent (env : Env) (orc : Nat → Val → Raw) (f : Fn) (args : Lis
       ⟨(match body with | .ret _ => .ret | .raises e => .bodyExc e), true, fwdPosOf f args, kw.map (·.1)⟩ := by
   simp only [allConforming, Bool.and_eq_true, Bool.not_eq_true'] at hall
   obtain ⟨⟨⟨⟨hgood, hsa⟩, hstar⟩, hdstar⟩, hret⟩ := hall
-  rw [runCall_pedantic env orc f args kw body hmode hinit hkw, checkArguments_good ctx hc hgood hsa hstar hdstar]
+  rw [runCall_pedantic' env orc f args kw body hmode hinit hkw, checkArguments_good ctx hc hgood hsa hstar hdstar]
   simp only [invoke, hbinds, Bool.not_true, Bool.false_eq_true, ↓reduceIte, hmode]
   cases body with
   | raises e => simp [retCheck]
@@ -47,25 +52,29 @@ theorem transparent (env : Env) (orc : Nat → Val → Raw) (f : Fn) (args : Lis
       simp only [retCheck, ha, hfl', Bool.false_eq_true, ↓reduceIte,
         checkVal_good (orc := orc) ctx.hw hc (ctx.ret a ha) (hbody r rfl) hret]
 
-/-- in particular: exactly the caller's keyword objects arrive, all of them, and (for ordinary functions and methods)
-    all positional objects, i.e. the implicit self -/
-theorem transparent_forwards_everything (f : Fn) (args : List Val) (h : f.kwOnlyInvocation = false) :
-    fwdPosOf f args = List.range args.length := by simp [fwdPosOf, h]
-
-/-- static and class methods are invoked with keyword arguments only: the implicit first argument the wrapper received
-    through instance access is (correctly) not passed on -/
-theorem transparent_static_drops_implicit (f : Fn) (args : List Val) (h : f.kwOnlyInvocation = true) :
-    fwdPosOf f args = [] := by simp [fwdPosOf, h]
+/-- in particular, about the call itself (not about the definition of `fwdPosOf`): a conforming call of an ordinary function or method hands
+    every positional object of the caller (the implicit self) and every keyword object to the body; for a static or class method - invoked with
+    keyword arguments only - the implicit first argument the wrapper received through instance access is (correctly) not passed on -/
+theorem transparent_forwards (env : Env) (orc : Nat → Val → Raw) (f : Fn) (args : List Val) (kw : List (NameId × Val)) (body : BodyOut)
+    (ctx : CompleteCtx env f args kw) (hmode : f.mode = .pedantic) (hfl : f.flavour ≠ .generator) (hinit : f.initFails args = false)
+    (hkw : (f.shouldHaveKwargs && !(f.argsWithoutSelf args).isEmpty) = false) (hc : f.clazzFails args = false)
+    (hbinds : f.binds (fwdPosOf f args).length (kw.map (·.1)) = true) (hbody : ∀ r, body = .ret r → r.wf env = true ∧ r.plain = true)
+    (hall : allConforming env f args kw body = true) :
+    (runCall env orc f args kw body).fwdKw = kw.map (·.1) ∧
+    (runCall env orc f args kw body).fwdPos = (if f.isStatic || f.isBound then [] else List.range args.length) := by
+  rw [transparent env orc f args kw body ctx hmode hfl hinit hkw hc hbinds hbody hall]
+  refine ⟨rfl, ?_⟩
+  simp only [fwdPosOf, Fn.kwOnlyInvocation, hmode, cfg_kwOnly, beq_self_eq_true, Bool.true_and]
 
 /-- a body exception reaches the caller unchanged whatever its kind (there is no try/except around the invocation) -/
 theorem body_exception_unchanged (env : Env) (orc : Nat → Val → Raw) (f : Fn) (args : List Val) (kw : List (NameId × Val)) (e : Nat)
     (hran : (runCall env orc f args kw (.raises e)).bodyRan = true) :
     (runCall env orc f args kw (.raises e)).caller = .bodyExc e := by
-  by_cases hinit : (f.firstIsSelf && args.isEmpty) = true
+  by_cases hinit : f.initFails args = true
   · unfold runCall at hran; simp [hinit] at hran
   · by_cases hkw : (f.shouldHaveKwargs && !(f.argsWithoutSelf args).isEmpty) = true
     · unfold runCall at hran; simp [hinit, hkw] at hran
-    · have hinit' : (f.firstIsSelf && args.isEmpty) = false := by simpa using hinit
+    · have hinit' : f.initFails args = false := by simpa using hinit
       have hkw' : (f.shouldHaveKwargs && !(f.argsWithoutSelf args).isEmpty) = false := by simpa using hkw
       have hinv : (invoke env orc f args kw (.raises e)).bodyRan = true → (invoke env orc f args kw (.raises e)).caller = .bodyExc e := by
         unfold invoke
@@ -75,10 +84,10 @@ theorem body_exception_unchanged (env : Env) (orc : Nat → Val → Raw) (f : Fn
         · cases f.mode <;> simp [retCheck]
       cases hm : f.mode with
       | requireKwargs =>
-        rw [runCall_requireKwargs _ _ _ _ _ _ hm hinit' hkw'] at hran ⊢
+        rw [runCall_requireKwargs' _ _ _ _ _ _ hm hinit' hkw'] at hran ⊢
         exact hinv hran
       | pedantic =>
-        rw [runCall_pedantic _ _ _ _ _ _ hm hinit' hkw'] at hran ⊢
+        rw [runCall_pedantic' _ _ _ _ _ _ hm hinit' hkw'] at hran ⊢
         cases hca : checkArguments env orc f args kw with
         | some c => simp [hca] at hran
         | none => simp only [hca] at hran ⊢; exact hinv hran
@@ -129,11 +138,6 @@ theorem no_consumption (env : Env) (orc : Nat → Val → Raw) (horc : ∀ k c x
   all_goals (simp only [checkType]; rw [(checking_never_iterates_an_iterator env orc horc).1 false _ _ c xs ys rfl hc])
 
 /-! ### independence from the body text -/
-/-- the model reads the source text only through `flagsOfSource`: equal flags, equal behaviour - whatever else the text says -/
-theorem text_independent_flags (env : Env) (orc : Nat → Val → Raw) (f : Fn) (src src' : String) (args : List Val)
-    (kw : List (NameId × Val)) (body : BodyOut) (h : flagsOfSource f.name src = flagsOfSource f.name src') :
-    runCall env orc { f with flags := flagsOfSource f.name src } args kw body =
-    runCall env orc { f with flags := flagsOfSource f.name src' } args kw body := by rw [h]
 
 /-- what "truthful" pins down: three of the five flags are functions of the signature / kind -/
 theorem truthful_flags (f f' : Fn) (t : Truth) (hp : f.params = f'.params) (ht : truthful f t = true) (ht' : truthful f' t = true) :
@@ -142,27 +146,37 @@ theorem truthful_flags (f f' : Fn) (t : Truth) (hp : f.params = f'.params) (ht :
   rw [hp] at ht
   exact ⟨ht.1.1.1.trans ht'.1.1.1.symm, ht.1.1.2.trans ht'.1.1.2.symm, ht.1.2.trans ht'.1.2.symm⟩
 
-/-- **C04 (body text).** Two functions with the same signature, kind and decoration (same decorator lines) whose flags are
-    truthful behave identically, whatever words appear in their bodies, comments or docstrings. -/
-theorem text_independent_partial (env : Env) (orc : Nat → Val → Raw) (f : Fn) (fl fl' : SrcFlags) (t : Truth) (args : List Val)
-    (kw : List (NameId × Val)) (body : BodyOut)
-    (ht : truthful { f with flags := fl } t = true) (ht' : truthful { f with flags := fl' } t = true)
-    (hdeco : fl.isPedantic = fl'.isPedantic ∧ fl.numDecorators = fl'.numDecorators) :
-    runCall env orc { f with flags := fl } args kw body = runCall env orc { f with flags := fl' } args kw body := by
-  have h := truthful_flags { f with flags := fl } { f with flags := fl' } t rfl ht ht'
-  have : fl = fl' := by
-    cases fl; cases fl'
-    simp only [SrcFlags.mk.injEq]
-    simp only at h hdeco
-    exact ⟨h.1, h.2.1, h.2.2, hdeco.1, hdeco.2⟩
-  rw [this]
-
+def baseFn0 : Fn :=
+  { name := "f", flags := flagsOfSource "f" "", qualDotted := false,
+    params := [{ name := 1, kind := .posOrKw, ann := some (.cls 2), dflt := none }], selfName := 0,
+    firstIsSelf := false, isBound := false, retAnn := some (.cls 2), genRet := .notGenType, flavour := .sync, mode := .pedantic }
 def TextIndependent_full : Prop :=
   ∀ (env : Env) (orc : Nat → Val → Raw) (f : Fn) (src src' : String) (args : List Val) (kw : List (NameId × Val)) (body : BodyOut),
     (flagsOfSource f.name src).isPedantic = (flagsOfSource f.name src').isPedantic →
     (flagsOfSource f.name src).numDecorators = (flagsOfSource f.name src').numDecorators →
     runCall env orc { f with flags := flagsOfSource f.name src } args kw body =
     runCall env orc { f with flags := flagsOfSource f.name src' } args kw body
+
+/-- **`TextIndependent_full` is false** (finding `bodyTextFlipsHeuristics`): `wants_args` is still read from the WHOLE source text, so a comment
+    that mentions `*args` turns the rejected positional call `f(5)` into an accepted one - same decorator lines, same signature -/
+theorem text_dependence_argsNeedle :
+    (flagsOfSource "f" "@pedantic\ndef f(a: int) -> int:\n    return a\n").isPedantic = (flagsOfSource "f" "@pedantic\ndef f(a: int) -> int:\n    # *args\n    return a\n").isPedantic ∧
+    (flagsOfSource "f" "@pedantic\ndef f(a: int) -> int:\n    return a\n").numDecorators = (flagsOfSource "f" "@pedantic\ndef f(a: int) -> int:\n    # *args\n    return a\n").numDecorators ∧
+    (runCall envW (fun _ _ => .raisedOther) { baseFn0 with flags := flagsOfSource "f" "@pedantic\ndef f(a: int) -> int:\n    return a\n" }
+        [.lit (.int 5)] [] (.ret (.lit (.int 1)))).caller = .pedCallWithArgs ∧
+    (runCall envW (fun _ _ => .raisedOther) { baseFn0 with flags := flagsOfSource "f" "@pedantic\ndef f(a: int) -> int:\n    # *args\n    return a\n" }
+        [.lit (.int 5)] [] (.ret (.lit (.int 1)))).caller = .ret := by decide
+theorem TextIndependent_full_is_false : ¬ TextIndependent_full := by
+  intro h
+  have w := text_dependence_argsNeedle
+  have := h envW (fun _ _ => .raisedOther) baseFn0 "@pedantic\ndef f(a: int) -> int:\n    return a\n" "@pedantic\ndef f(a: int) -> int:\n    # *args\n    return a\n"
+    [.lit (.int 5)] [] (.ret (.lit (.int 1))) w.1 w.2.1
+  have hc : (runCall envW (fun _ _ => .raisedOther) { baseFn0 with flags := flagsOfSource "f" "@pedantic\ndef f(a: int) -> int:\n    return a\n" }
+        [.lit (.int 5)] [] (.ret (.lit (.int 1)))).caller =
+      (runCall envW (fun _ _ => .raisedOther) { baseFn0 with flags := flagsOfSource "f" "@pedantic\ndef f(a: int) -> int:\n    # *args\n    return a\n" }
+        [.lit (.int 5)] [] (.ret (.lit (.int 1)))).caller := congrArg Result.caller this
+  rw [w.2.2.1, w.2.2.2] at hc
+  cases hc
 
 def baseFn : Fn :=
   { name := "f", flags := flagsOfSource "f" "", qualDotted := false,
@@ -178,6 +192,21 @@ theorem header_flags_ignore_body (name s s' : String) (h : headerOf s = headerOf
     (flagsOfSource name s).numDecorators = (flagsOfSource name s').numDecorators := by
   have hs : staticInHeader = true ∧ setterInHeader = true ∧ pedanticInHeader = true ∧ numDecoratorsCountedInHeaderLines = true := by decide
   simp only [flagsOfSource, scopeOf, hs.1, hs.2.1, hs.2.2.1, hs.2.2.2, ↓reduceIte, h, and_self]
+
+/-- **the `*args` needle is the only way the body text enters**: two sources with the same decorator lines that agree on whether `*args`
+    occurs somewhere behave identically on EVERY call (positional ones included) -/
+theorem text_independent_up_to_args_needle (env : Env) (orc : Nat → Val → Raw) (f : Fn) (s s' : String) (args : List Val)
+    (kw : List (NameId × Val)) (body : BodyOut) (hhead : headerOf s = headerOf s')
+    (hw : (flagsOfSource f.name s).wantsArgs = (flagsOfSource f.name s').wantsArgs) :
+    runCall env orc { f with flags := flagsOfSource f.name s } args kw body =
+    runCall env orc { f with flags := flagsOfSource f.name s' } args kw body := by
+  obtain ⟨h1, h2, h3, h4⟩ := header_flags_ignore_body f.name s s' hhead
+  have : flagsOfSource f.name s = flagsOfSource f.name s' := by
+    cases hs : flagsOfSource f.name s; cases hs' : flagsOfSource f.name s'
+    simp only [hs, hs'] at h1 h2 h3 h4 hw
+    simp only [SrcFlags.mk.injEq]
+    exact ⟨hw, h1, h2, h3, h4⟩
+  rw [this]
 
 /-- (repaired by b8ad1a1) … and what a COMMENT on a decorator line mentions is no decorator either: the decorator lines are read
     without their comments -/
